@@ -16,7 +16,9 @@ m("C07", "proof",
   "undisturbed source sessions (put, then call/drain rounds) over random configurations (id widths, "
   "sequence widths, CRC, checksum type, mode, closure, max_file_segment_len, max_packet_len, file sizes "
   "0..k*seg+r) + fault-free end-to-end sessions; every emitted PDU is also packed, unpacked and its "
-  "length compared; non-trivial = a session that reached a busy step",
+  "length compared; non-trivial = a session that reached a busy step; plus implementation-only large-file "
+  "scenarios (sparse source files at and beyond 2^32-1 bytes in the native sandbox: large flag on every PDU, "
+  "true size in the Metadata PDU, PDUs encodable, consecutive offsets)",
   "Props/C07.lean proves for the Source model, for every file content/size, segment length and header "
   "configuration: first call = exactly the Metadata PDU with true size/names/checksum type/closure "
   "(C07_metadata_call); by induction on the number of calls, k call/drain rounds emit exactly the next k "
@@ -33,7 +35,9 @@ m("C07", "proof",
   "Lean 4 theorems (induction on call count, forward simulation of the FSM) + differential correspondence",
   "§6 C07",
   ["EOF/ACK length bound only under the guard max_packet_len >= header+10|14(+2): see known finding",
-   "byte-level encodings not modelled: pack/unpack round trip checked on the implementation"])
+   "byte-level encodings not modelled: pack/unpack round trip checked on the implementation",
+   "files beyond 2^32-1 bytes: theorem for every file, but the sessions are not replayed on the model (its "
+   "driver cannot hold 2^32 bytes): oracle only"])
 m("C08", "proof",
   "source sessions with NAK PDUs (valid, 0-length, inverted, beyond progress, beyond file size, (0,0)) "
   "at every sender step, always draining between calls; non-trivial = session reached a busy step",
@@ -231,12 +235,15 @@ m("C03", "other",
 m("C04", "proof",
   "silent-peer scenarios for the three retry procedures with limits 1..4 and intervals 500..2000 ms: calls "
   "one ms before each expiry (nothing may happen), exactly at it; the awaited ACK after j < N expiries; exact "
-  "count of re-sent PDUs, the expiry at which the limit fault fires, the cancel exchange and the abandon at 2N",
+  "count of re-sent PDUs, the expiry at which the limit fault fires, the cancel exchange and the abandon at 2N; "
+  "half-silent link at the receiver (the sender's EOF re-delivered between expiries: exactly one ACK (EOF), "
+  "counter and expiry schedule unchanged)",
   "Props/C04.lean proves for each procedure and every state: no activity before the expiry; an expiry below "
   "the limit re-sends exactly one EOF / one Finished / the whole NAK sequence and adds one to the counter; an "
   "expiry at the limit declares the limit fault and re-sends nothing; progress resets; a limit fault during the "
   "cancel exchange abandons (with C14); C04_expiry_count: the fault falls on expiry number limit - c, for a "
-  "fresh procedure the limit-th. ITERATION OVER TIME, by induction on the list of expiry times (any times at "
+  "fresh procedure the limit-th; a re-received EOF is not progress (C04_dest_eof_again_not_progress). "
+  "ITERATION OVER TIME, by induction on the list of expiry times (any times at "
   "which the restarted timer has run out, PDUs retrieved in between): k expiries below the limit re-send "
   "exactly k PDUs (EOF / Finished / NAK sequence), add exactly k to the counter and change nothing else "
   "(C04_source_expiries_below_limit, C04_dest_expiries_below_limit, C04_nak_expiries_below_limit); the limit "
